@@ -83,7 +83,8 @@ THEOREMS = [
     # supersizeAtoms in terms of them; one pass of the site loop of check_setting_basis
     'C04.gen_offsets_eq_model', 'C04.flatMap_const_replicate', 'C04.tileList_eq_flatten', 'C04.tileList_mul',
     'C04.offsets_spec', 'C04.map_eq_range_filterMap', 'C04.supersizeAtoms_eq_order', 'C04.gen_siteStep_eq_model',
-    'C04.gen_siteCallKw_eq_model', 'C04.checkSitesBy_step',
+    'C04.gen_siteCallKw_eq_model', 'C04.checkSitesBy_step', 'C04.absK_eq_abs', 'C04.gen_newNatoms_eq_model',
+    'C04.gen_planar_refusal_iff',
     # round 6 (Proofs/C04_Ladder.lean + end of Proofs/C04.lean). the call as written: which multiplier arguments are
     # refused and with which error, the first refused axis decides; supersize end to end
     'C04.resolve_ok_iff', 'C04.resolve_spec', 'C04.resolve_error_iff', 'C04.resolveSizes_ok_iff', 'C04.resolveSizes_ok',
@@ -109,7 +110,11 @@ PARTIAL = {
                               'left-handed U, C05 flip_same_points) and the oracle checks on the real result that the '
                               'returned transform is a proper rotation taking the requested lattice vectors U.vects onto '
                               'the result cell and every atom onto an original atom',
-    'cell_conversions': 'conventional<->primitive conversions are rotate() by the centering tables (mutually inverse by '
+    'cell_conversions': 'round 6: the integer vectors both conversions hand to rotate, multip, the lattice sites and family '
+                        'lists are generated from the source and proved mutually inverse / complete (conv_uvws_inverse, '
+                        'sites_are_lattice_points, conversions_undo_cell: the cell vectors come back); what remains outside '
+                        'Lean is the float cut below (statement pin c2p_cut). Earlier text: '
+                        'conventional<->primitive conversions are rotate() by the centering tables (mutually inverse by '
                         'C16 centering_inverse) preceded by the family test and the lattice-site test at the caller\'s '
                         'tolerances (modelled: identifyFamily, checkSettingBasis, resolveSetting; exact instance checkBasis, '
                         'periodic by checkBasis_periodic; tied by the correspondence batches `basis`, `family`, `resolve`) '
@@ -158,11 +163,22 @@ RULE = ('random cells of every crystal family + triclinic (dyadic-grid vectors, 
         'orientation (LAMMPS-oriented, rotated, mirrored, mirrored + rotated, axes permuted, general of either handedness; '
         'atoms on far faces / one cell outside / histories) under every setting incl. p, undone by conventional_to_primitive; '
         'conventional cells of every setting in those orientations; cells along the Cartesian axes with the axes permuted / '
-        'mirrored / half-turned through rotate, supersize and both conversions; distinct = distinct canonical request line; '
+        'mirrored / half-turned through rotate, supersize and both conversions; round 6: supersize called with accepted and '
+        'refused arguments mixed over the three slots (ints, numpy ints, tuples, floats, lists, 3-tuples, None, strings; the '
+        'first refused axis decides the error class), rotate with user ladders (1-4 rungs as float / list / tuple / array, '
+        'rungs that are no generated distance) on cells with atoms a hair off the new faces - the model runs the ladder '
+        'itself -, the vectors both conversions hand to rotate captured by a spy for every setting, t and unknown ones; '
+        'distinct = distinct canonical request line; '
         'non-trivial = more than one replica / U != identity')
 ASSUMPTIONS = ['numpy.linalg.inv and float arithmetic of the implementation are within rtol 1e-9 of the exact value on '
                'the generated (well-conditioned, dyadic) cells',
-               'the float tolerance ladder of rotate (isclose to 0/1) is the identity in exact arithmetic',
+               'the tolerance ladder of rotate is modelled (roundFaces / ladderLoop / rotateLadder, generated from the source): '
+               'float and exact arithmetic can differ only about an image whose distance from a face of the new cell equals '
+               'a rung to within rounding (kept / dropped by noise); the theorems about the exact filter (rotate_count ...) '
+               'carry over to a rung by ladderKeep_eq_shift / rotateLadder_first_rung',
+               'np.allclose / np.isclose defaults (rtol 1e-5, atol 1e-8) where the source passes no keywords (the integer '
+               'test of rotate, the u+v+t test of vector4to3); Box.volume is |det vects| (gen_newNatoms_eq_model takes it as '
+               'the `volume` argument); round() of an exact integer is that integer',
                'rotate_count / rotate_total / rotate_check_passes assume every atom inside the box, far faces included '
                '(0 <= s <= 1) and a non-degenerate box; for atoms outside the box both the code and the '
                'model (rotateChecked) may refuse with the expected-count test ("Filtering failed") - compared in the '
@@ -188,6 +204,8 @@ ASSUMPTIONS = ['numpy.linalg.inv and float arithmetic of the implementation are 
                'one delivers; two atoms on the same rung (can cancel in the count test) and a one-rung ladder equal to the '
                'distance are the documented knife edges and are not generated']
 TRUSTED = ['numpy in the correspondence run',
+           'Python ast + the translator in harness/props/c04.py (expression subset, symbolic array interpreter, structure '
+           'walk); 4 normalised-AST statement pins (rotate_tail, index_of_pos, c2p_cut, p2c_body: docs/C04.md)',
            'Mathlib (Submodule.natAbs_det_equiv: Smith normal form over Z) - kernel-checked, standard axioms only']
 MANIFEST = {
     'text': 'Lean model of supersize (exact replica ordering) and of rotate up to normalize (bounding supercell from the '
@@ -215,6 +233,18 @@ MANIFEST = {
             '(rotated, mirrored = left-handed, axes permuted: reframe by any invertible matrix) - relative coordinates, '
             'replicas, kept / dropped atoms, identity shortcut, count test and refusals; the result is the re-framed '
             'result (rotate_reframe), so conversions of cells that are not LAMMPS-oriented return the same crystal. '
+            'Round 6: a translator (Python ast) regenerates Atomman/Generated/SupercellSource.lean from the current source of '
+            'supersize, rotate, the Box family predicates, miller.py and both conversion styles on every check - the int / '
+            'tuple rules, the axis updates (symbolic state: statement order matters), the replica counters (a tiny array '
+            'language interpreted on symbolic shapes), the corners, bounding multipliers, lattice translation, the two '
+            'rounding statements and the inside test of the ladder, the family chain, site / family / centring tables, '
+            'multip, the resolve chain, one pass of the site loop, defaults and call arguments - and 49 obligations '
+            'gen_..._eq_model prove each generated definition equal to the model the theorems are about (4 statement pins '
+            'for numpy bookkeeping). New theorems: refusal iff for the multiplier arguments and supersize end to end; one '
+            'rung of the ladder = the exact filter of the crystal shifted by atol, rotate with its ladder = the exact model '
+            'when the first rung sees no atom near a face; the conversion matrices are mutually inverse up to multip, det = '
+            'number of lattice sites, the sites are the primitive lattice points, the conversions undo one another on the '
+            'cell vectors. '
             'Tied to the code by an '
             'exact/toleranced correspondence run on supersize '
             'and rotate (incl. refusals) and an exact lattice-arithmetic oracle on the real results (requested vectors, '
@@ -222,7 +252,8 @@ MANIFEST = {
     'note': 'Trusted: Lean kernel + standard axioms; the correspondence harness; float rounding bounded by rtol 1e-9. '
             'Outside the Lean model: normalize (C05) and the primitive-cell cut of conventional_to_primitive, both '
             'checked on the implementation by the oracle.',
-    'technique': 'Lean 4 theorems over a hand-written model + differential correspondence + exact lattice oracle',
+    'technique': 'Lean 4 theorems over a model tied to the source by an ast translator (generated definitions proved equal '
+                 'to the model) + differential correspondence + exact lattice oracle',
 }
 
 
